@@ -97,6 +97,29 @@ def file_cases():
                 samples.append(dict(cls=cls.__name__, change=ch, valid=valid))
 
 
+def odd_missing_cases():
+    """paths that do not exist for another reason than ENOENT: below a regular file, over-long component"""
+    global n, w
+    plain = os.path.join(root, "plainfile")
+    with open(plain, "w") as f:
+        f.write("x")
+    for cls in (File, IFile, ContentFile):
+        for label, p in (("below a regular file", os.path.join(plain, "child.txt")), ("over-long name", os.path.join(root, "n" * 300))):
+            n += 1
+            ok, h1 = guard(f"{cls.__name__}({label}).hash", lambda: fresh_hash(cls, p))
+            if not ok:
+                return
+            ok, h2 = guard(f"{cls.__name__}({label}).hash", lambda: fresh_hash(cls, p))
+            if not ok:
+                return
+            ok, valid = guard(f"{cls.__name__}({label}).is_valid()", lambda: cls(p).is_valid())
+            if not ok:
+                return
+            if h1 != h2:
+                w = dict(case=f"{cls.__name__} {label}", observed="two hashes of the same missing path differ")
+                return
+
+
 def set_cases():
     global n, w
     changes = ["none", "member-touched", "member-rewritten", "member-removed", "member-added", "all-removed"]
@@ -217,17 +240,31 @@ def _write(v, mode):
         f.write(b"new" if "b" in mode else "new")
 
 
+import dataclasses, collections
+
+
+@dataclasses.dataclass
+class Holder:
+    label: str
+    file: object
+
+
+Pair = collections.namedtuple("Pair", ["file", "n"])
+SHAPES = {"list+dict+tuple": lambda f: [f, {"k": (f, 1)}], "bare": lambda f: f, "dataclass": lambda f: Holder("h", f), "namedtuple": lambda f: Pair(f, 1),
+          "dataclass-in-list": lambda f: [Holder("h", f)], "set-in-dict": lambda f: {"s": {f}}}
+
+
 def workflow_cases():
     """a cached result containing an external value is replayed only while valid; otherwise re-executed, without raising"""
     global n, w
     from redun import task
-    for cls in (File, ContentFile, IFile):
+    for cls, shape in [(c, "list+dict+tuple") for c in (File, ContentFile, IFile)] + [(File, sh) for sh in SHAPES if sh != "list+dict+tuple"]:
         for ch in ("none", "delete", "alter"):
             n += 1
             d = tempfile.mkdtemp(dir=root)
             p = os.path.join(d, "out.txt")
             runs = []
-            ns = f"c04_{cls.__name__}_{ch}"
+            ns = f"c04_{cls.__name__}_{ch}_{abs(hash(shape)) % 10**6}"
 
             def make_task():
                 @task(namespace=ns, name="make")
@@ -235,7 +272,7 @@ def workflow_cases():
                     runs.append(x)
                     f = cls(p)
                     f.write("run%d" % len(runs))
-                    return [f, {"k": (f, 1)}]
+                    return SHAPES[shape](f)
                 return make
             make = make_task()
             s = quiet_scheduler({"backend": {"db_uri": "sqlite:///" + os.path.join(d, "r.db")}})
@@ -254,7 +291,7 @@ def workflow_cases():
             reexec = len(runs) == 2
             expect_reexec = (ch != "none") and cls is not IFile
             if reexec != expect_reexec:
-                w = dict(case=f"workflow returning {cls.__name__}, output {ch}", executions=len(runs), expected_reexecution=expect_reexec)
+                w = dict(case=f"workflow returning {cls.__name__} in shape {shape}, output {ch}", executions=len(runs), expected_reexecution=expect_reexec)
                 return
             if expect_reexec and open(p).read() != "run2":
                 w = dict(case=f"workflow returning {cls.__name__}, output {ch}", observed="result does not reflect the current external state", content=open(p).read())
@@ -282,11 +319,11 @@ def table_case():
 
 
 try:
-    for fn in (table_case, file_cases, set_cases, writer_cases, workflow_cases):
+    for fn in (table_case, file_cases, odd_missing_cases, set_cases, writer_cases, workflow_cases):
         if w is None:
             fn()
 finally:
     shutil.rmtree(root, ignore_errors=True)
 finish(w is not None, witness=w, evaluations=n, samples=samples,
-       bound="3 file classes x 6 external changes, 6 set/dir classes x 6 changes, 3 classes x (5 write modes, copy_to, stage, unstage), 2 dir classes x mkdir/rmdir, "
-             "3 classes x 3 output states of a cached workflow, method table; local filesystem only")
+       bound="3 file classes x 6 external changes, 3 classes x 2 kinds of non-ENOENT missing paths, 6 set/dir classes x 6 changes, 3 classes x (5 write modes, copy_to, stage, unstage), 2 dir classes x mkdir/rmdir, "
+             "(3 classes + 5 further result shapes: bare, dataclass, namedtuple, dataclass in list, set in dict) x 3 output states of a cached workflow, method table; local filesystem only")
